@@ -347,8 +347,6 @@ def compare(c, io, mo):
         if m.get('ok'): return f"implementation raised {io['exc']} ({io.get('msg')}), model answered"
         return None if m.get('err') == io['exc'] else f"implementation raised {io['exc']}, model {m.get('err')}"
     if not m.get('ok'): return f"model refused ({m.get('err')}), implementation answered"
-    if k == 'rebin' and len(c['shape']) == 3 and c.get('dtype') in ('int8', 'uint8', 'int16', 'uint16', 'int32', 'uint32'):
-        return None      # KF-C20-rebin-int-cube-wraps: judged by the oracle (the model sums in Int and cannot wrap)
     if k in ('pad2', 'pad3', 'subarray', 'rebin'):
         if io['shape'] != m['shape']: return f"shape: impl {io['shape']} model {m['shape']}"
         if io['data'] != m['data']: return f"{k}: values differ"
@@ -554,9 +552,6 @@ def shrink(c):
 # ------------------------------------------------------------------------------------------ known finding
 def matches_finding(kf, case, msg):
     m = kf.get('match', {})
-    if kf.get('id') == 'KF-C20-rebin-int-cube-wraps':
-        return (case.get('kind') == 'rebin' and len(case.get('shape', [])) == 3 and case.get('dtype') in ('int8', 'uint8', 'int16', 'uint16', 'int32', 'uint32')
-                and 'the output keeps the input dtype and the bin sums wrap' in msg)
     if kf.get('id') != 'KF-C20-hex-gap0-shared-edge': return False
     # only the bounded shared-edge overlap is the known finding: multiplicity <= 3, shared pixels on the rim of all but one segment, at most
     # (3k^2+k axis-parallel shared edges) x (R+1 pixel centres each) + 6k^2 vertex pixels — anything more at gap 0 stays a VIOLATION
@@ -565,9 +560,6 @@ def matches_finding(kf, case, msg):
 
 def replay_finding(kf):
     """the recorded witness on the real code"""
-    if kf.get('id') == 'KF-C20-rebin-int-cube-wraps':
-        c = kf['witness']; io = impl(c); msg = oracle(c, io) if 'exc' not in io else None
-        return bool(msg and matches_finding(kf, c, msg))
     if kf.get('id') != 'KF-C20-hex-gap0-shared-edge': return False
     c = kf['witness']
     io = impl(c)
